@@ -239,6 +239,9 @@ func execRun(rec *proto.RunRec, free bool) runOutcome {
 			pol = toPolicy(rec.Policy)
 		}
 		out.sim = simrt.Run(nt, nops, pol, body)
+		if f := simrt.Fault(); f != "" {
+			die("simulator fault: %s", f)
+		}
 		if out.sim.Deadlock {
 			out.viol = append(out.viol, proto.Violation{Class: "deadlock", Task: -1, Op: -1,
 				Detail: "every unfinished task is blocked on a library lock / once and nobody can make progress"})
@@ -372,6 +375,7 @@ func parseRaceLog(from int64) proto.Violation {
 	}
 	stacks := strings.Split(first, "\n\n")
 	n := 0
+	lib, sim := 0, 0
 	for _, s := range stacks {
 		ls := strings.Split(strings.TrimLeft(s, "=\n"), "\n")
 		hdr := ""
@@ -386,20 +390,56 @@ func parseRaceLog(from int64) proto.Violation {
 			continue
 		}
 		n++
-		top := ""
+		// the innermost frame that is not standard library / runtime decides whose access it is
+		top := "(stack not available)"
 		for _, l := range ls {
 			l2 := strings.TrimSpace(l)
-			if strings.HasPrefix(l, "  ") && !strings.HasPrefix(l, "      ") && isLibFrame(l2) {
-				top = l2
-				break
+			if !strings.HasPrefix(l, "  ") || strings.HasPrefix(l, "      ") || l2 == "" {
+				continue
 			}
+			if isStdFrame(l2) {
+				continue
+			}
+			switch {
+			case strings.HasPrefix(l2, libPrefix+"zz_simrt"):
+				top = "(simulator) " + l2
+				sim++
+			case strings.HasPrefix(l2, libPrefix):
+				top = l2
+				lib++
+			default:
+				top = "(caller) " + l2
+			}
+			break
 		}
 		v.Frames = append(v.Frames, top)
 		if n == 2 {
 			break
 		}
 	}
+	if sim > 0 || lib == 0 {
+		// not the library's race: a defect of the simulator/harness itself. Never a VIOLATION.
+		die("race report without a library access (machinery bug):\n%s", trim(txt, 3000))
+	}
 	return v
+}
+
+// a frame of the Go standard library or runtime: first path element has no dot
+func isStdFrame(f string) bool {
+	head := f
+	if i := strings.IndexByte(head, '('); i >= 0 {
+		head = head[:i]
+	}
+	first := head
+	if i := strings.IndexByte(head, '/'); i >= 0 {
+		first = head[:i]
+	} else if i := strings.IndexByte(head, '.'); i >= 0 {
+		first = head[:i]
+	}
+	if first == "main" {
+		return false
+	}
+	return !strings.Contains(first, ".")
 }
 
 var libPrefix = "github.com/github/go-spdx/v2/"
